@@ -45,6 +45,20 @@ func readerGoroutines() int {
 }
 
 func runC13(c *core.Ctx) {
+	if c.Batch < len(faultWhens) && c.Only < 0 && !c.Race {
+		when := faultWhens[c.Batch]
+		if _, ok := c.CaseRng(9500, "close after injected read error when="+when); ok {
+			if r, inj, ok := runFault(c, when); ok {
+				c.Count("fault_sessions", 1)
+				c.Count("reads_made_to_fail", int64(inj))
+				c.Eval(1)
+				c.Distinct("fault", when)
+				if r.InotifyFds != 0 || r.Readers != 0 || !r.ChannelsEnded || r.CloseErr != "" {
+					c.Violate("leak-after-read-error", fmt.Sprintf("after %d injected read errors (when=%s) and Close: %d inotify descriptors still open, %d reader goroutines, channels closed=%v, Close=%q", inj, when, r.InotifyFds, r.Readers, r.ChannelsEnded, r.CloseErr), r)
+				}
+			}
+		}
+	}
 	rng0, ok := c.CaseRng(0, "cycles")
 	if !ok {
 		return
